@@ -23,7 +23,8 @@ RULE = ("cycles of 1..8 elements (durations 1..50, also 1, 10^6), offsets 0..200
 ASSUME = ["Python/numpy integer arithmetic is exact (model over Z)"]
 ROUTES = ["ctor", "setter", "deepcopy", "pickle", "kw_order"]
 # how the cycle itself comes into being (all before the first query; staleness after a query is C11)
-CYCLE_ROUTES = ["ctor", "ctor", "offset_setter", "elements_setter", "both_setters", "copy", "sibling", "late_elements"]
+CYCLE_ROUTES = ["ctor", "ctor", "offset_setter", "elements_setter", "both_setters", "copy", "sibling", "late_elements",
+                "default_fill"]
 
 
 def gen(rng, n):
@@ -75,6 +76,14 @@ def build(c):
     elif cr == "elements_setter":
         cyc = TrafficLightCycle([TrafficLightCycleElement(TrafficLightState.RED, 1)], time_offset=c["o"])
         cyc.cycle_elements = els
+    elif cr == "default_fill":
+        # cycles constructed without an element list and filled through the list they hand out, before anybody asked
+        # for a state; another cycle made the same way exists beside this one (seed C17-14: a shared default list)
+        other = TrafficLightCycle()
+        other.cycle_elements.append(TrafficLightCycleElement(TrafficLightState.RED, 2))
+        cyc = TrafficLightCycle(time_offset=c["o"])
+        for e in els:
+            cyc.cycle_elements.append(e)
     elif cr == "both_setters":
         cyc = TrafficLightCycle()
         cyc.cycle_elements = els
